@@ -227,4 +227,20 @@ def run(p: Program, rep: Report, tier: str) -> None:
         rep.ok("R18.4", "a password is only emitted inside the user-name branch (removing the user removes both)")
     else:
         rep.violation("R18.4", construct(rpl, text="userinfo nesting"), where(rpl), "the password is not nested under the user name when netloc is rebuilt")
-    rep.require_instances("R18.4", 7)
+    # the user-info is everything before the LAST '@' (a password may contain '@'; urlsplit uses rpartition too)
+    ats = [c for c in ast.walk(rpl.node) if isinstance(c, ast.Call) and isinstance(c.func, ast.Attribute) and c.func.attr in ("split", "rsplit", "partition", "rpartition") and c.args and isinstance(c.args[0], ast.Constant) and c.args[0].value == "@"]
+    if not ats:
+        rep.undecide("R18.4", "replace(): no split of the netloc at '@' found")
+    for c in ats:
+        if c.func.attr == "rpartition" or (c.func.attr == "rsplit" and len(c.args) > 1 and isinstance(c.args[1], ast.Constant) and c.args[1].value == 1):
+            rep.ok("R18.4", f"replace(): user-info is split off at the last '@' ({ast.unparse(c)})")
+        else:
+            rep.violation("R18.4", construct(rpl, text=f"netloc.{c.func.attr}('@', ...)"), where(rpl, c),
+                          f"replace() splits the netloc at the FIRST '@' ({ast.unparse(c)}): with a password containing '@' the host is cut wrongly and repr() prints part of the password")
+    colons = [c for c in ast.walk(rpl.node) if isinstance(c, ast.Call) and isinstance(c.func, ast.Attribute) and c.func.attr in ("split", "rsplit", "partition", "rpartition") and c.args and isinstance(c.args[0], ast.Constant) and c.args[0].value == ":"]
+    for c in colons:
+        if c.func.attr in ("rsplit", "rpartition"):
+            rep.ok("R18.4", f"replace(): the port is split off at the last ':' ({ast.unparse(c)[:40]})")
+        else:
+            rep.violation("R18.4", construct(rpl, text=f"hostname.{c.func.attr}(':', ...)"), where(rpl, c), "replace() splits host and port at the first ':'")
+    rep.require_instances("R18.4", 8)
